@@ -1,7 +1,7 @@
 (* C01: the terminal string of a FmtStr displays exactly its cells and resets. *)
 From Curtsies Require Import Model.Base Gen.Tables Model.Render Spec.Sgr.
 From Coq Require Import Lia.
-Open Scope N_scope.
+Local Open Scope N_scope.
 
 (* ---- the interpreter composes ------------------------------------------ *)
 Lemma run_app : forall a b st ps,
